@@ -51,7 +51,7 @@ def run(ctx, spec):
     elif rel == 'opposite':
         b = (-a) % r
     else:
-        b = rng.randrange(1, r)
+        b = gen.dlog(rng)
         if b == a:
             b = (a + 1) % r or 1
     # representatives
